@@ -502,6 +502,7 @@ func hasRealReferrer(v ssa.Value) bool {
 
 func runScanShape(m *model.Model, s *ob.Set) {
 	const R = "SCANSHAPE"
+	runScanGrammar(m, s)
 	scan := m.Lookup("(*Decimal).scan")
 	dscan := m.Lookup("dec.scan")
 	pos := m.Pos(scan.Pos())
@@ -717,11 +718,19 @@ func runScanShape(m *model.Model, s *ob.Set) {
 	if bval == nil {
 		model.Fatal("SCANSHAPE: result b of dec.scan not found in (*Decimal).scan")
 	}
-	want := map[int64]struct {
-		mul int64
-		acc string
-	}{10: {1, "exp10"}, 2: {1, "exp2"}, 8: {3, "exp2"}, 16: {4, "exp2"}}
-	found := map[int64]bool{}
+	// per mantissa base, the case body of the fraction-digit correction; what each case adds to
+	// which accumulator is read off the φs of the block where the cases join, as a linear form:
+	// the part of the incoming value that is the same on every case edge is the accumulator's
+	// previous value, the rest is the case's contribution (coefficient × digit count)
+	want := map[int64]int64{10: 1, 2: 1, 8: 3, 16: 4}
+	type contrib struct {
+		phi  *ssa.Phi
+		atom ssa.Value
+		coef int64
+		n    int
+	}
+	caseBody := map[int64]*ssa.BasicBlock{}
+	casePos := map[int64]string{}
 	for _, b := range scan.Blocks {
 		if len(b.Instrs) == 0 {
 			continue
@@ -738,47 +747,170 @@ func runScanShape(m *model.Model, s *ob.Set) {
 		if !ok {
 			continue
 		}
-		w, isCase := want[k]
-		if !isCase {
+		if _, isCase := want[k]; !isCase {
 			continue
 		}
-		found[k] = true
-		body := b.Succs[0]
-		mul := int64(1)
-		acc := ""
-		for _, in := range body.Instrs {
-			bo2, ok := in.(*ssa.BinOp)
-			if !ok {
-				continue
-			}
-			if bo2.Op == token.MUL {
-				if c, ok := model.ConstInt(bo2.Y); ok {
-					mul = c
-				} else if c, ok := model.ConstInt(bo2.X); ok {
-					mul = c
-				}
-			}
-			if bo2.Op == token.SHL {
-				if c, ok := model.ConstInt(bo2.Y); ok {
-					mul = 1 << uint(c)
-				}
-			}
-			if bo2.Op == token.ADD && bo2.Referrers() != nil {
-				for _, u := range *bo2.Referrers() {
-					if ph, ok := u.(*ssa.Phi); ok {
-						acc = ph.Comment
-					}
-				}
-			}
+		if _, dup := caseBody[k]; dup {
+			continue // the first switch over the base is the fraction-digit correction
 		}
-		c := fmt.Sprintf("(*Decimal).scan/radix-%d", k)
-		s.Check(mul == w.mul && acc == w.acc, R, c, m.InstrPos(ifi), fmt.Sprintf("%d per fraction digit into %s", w.mul, w.acc), fmt.Sprintf("a base-%d fraction digit must contribute %d to %s, found factor %d into %q", k, w.mul, w.acc, mul, acc))
+		caseBody[k] = b.Succs[0]
+		casePos[k] = m.InstrPos(ifi)
 	}
 	for k := range want {
-		if !found[k] {
+		if caseBody[k] == nil {
 			s.Bad(R, fmt.Sprintf("(*Decimal).scan/radix-%d", k), pos, fmt.Sprintf("no case for mantissa base %d in the fraction-digit correction", k))
 		}
 	}
+	if len(caseBody) != len(want) {
+		return
+	}
+	// the join: first block with φs reached from a case body through plain jumps
+	joinOf := func(b *ssa.BasicBlock) (*ssa.BasicBlock, *ssa.BasicBlock) {
+		for hops := 0; hops < 4; hops++ {
+			if len(b.Succs) != 1 {
+				return nil, nil
+			}
+			t := b.Succs[0]
+			if len(t.Instrs) > 0 {
+				if _, ok := t.Instrs[0].(*ssa.Phi); ok {
+					return t, b
+				}
+			}
+			b = t
+		}
+		return nil, nil
+	}
+	bases := []int64{10, 2, 8, 16}
+	var join *ssa.BasicBlock
+	from := map[int64]*ssa.BasicBlock{}
+	for _, k := range bases {
+		j, f := joinOf(caseBody[k])
+		if j == nil || (join != nil && j != join) {
+			m.Blind("SCANSHAPE: the cases of the fraction-digit correction in (*Decimal).scan do not meet in one block")
+			s.Note(R, "(*Decimal).scan/radix", pos, "fraction-digit correction written in a shape this rule does not read (not decided)")
+			return
+		}
+		join, from[k] = j, f
+	}
+	res := map[int64][]contrib{}
+	for _, in := range join.Instrs {
+		ph, ok := in.(*ssa.Phi)
+		if !ok {
+			break
+		}
+		forms := map[int64]map[ssa.Value]int64{}
+		for _, k := range bases {
+			for i, p := range join.Preds {
+				if p == from[k] {
+					forms[k] = linForm(ph.Edges[i], 8)
+				}
+			}
+		}
+		for _, k := range bases {
+			for a, c := range forms[k] {
+				same := true
+				for _, k2 := range bases {
+					if forms[k2][a] != c {
+						same = false
+					}
+				}
+				if !same && c != 0 {
+					res[k] = append(res[k], contrib{ph, a, c, 0})
+				}
+			}
+		}
+	}
+	// exactly one contribution per case, all of the same atom (the digit count), coefficients
+	// ±(1, 1, 3, 4) with one sign, base 10 into one accumulator and 2/8/16 into another
+	var d ssa.Value
+	sign := int64(0)
+	for _, k := range bases {
+		c := fmt.Sprintf("(*Decimal).scan/radix-%d", k)
+		// atoms that other cases contribute with coefficient 0 here show up as differences too:
+		// keep the contributions of this case only (non-zero on this edge)
+		rs := res[k]
+		if len(rs) != 1 {
+			s.Bad(R, c, casePos[k], fmt.Sprintf("a base-%d fraction digit must contribute %d per digit to one exponent accumulator; found %d contributions", k, want[k], len(rs)))
+			continue
+		}
+		r := rs[0]
+		if d == nil {
+			d = r.atom
+			sign = 1
+			if r.coef < 0 {
+				sign = -1
+			}
+		}
+		okc := r.atom == d && r.coef == sign*want[k]
+		var okAcc bool
+		if k == 10 {
+			okAcc = true
+			for _, k2 := range []int64{2, 8, 16} {
+				if len(res[k2]) == 1 && res[k2][0].phi == r.phi {
+					okAcc = false
+				}
+			}
+		} else {
+			okAcc = len(res[2]) == 1 && res[2][0].phi == r.phi
+		}
+		s.Check(okc && okAcc, R, c, casePos[k], fmt.Sprintf("%d per fraction digit, into the %s exponent", want[k], map[bool]string{true: "decimal", false: "binary"}[k == 10]),
+			fmt.Sprintf("a base-%d fraction digit must contribute %d per digit to the %s exponent accumulator; found coefficient %d (same count variable: %v, right accumulator: %v)", k, want[k], map[bool]string{true: "decimal", false: "binary"}[k == 10], r.coef*sign, r.atom == d, okAcc))
+	}
+}
+
+// linForm writes v as a sum of coefficient × atom; constants go to the nil atom. Atoms are the
+// values it does not look through (φs, calls, loads, conversions of those).
+func linForm(v ssa.Value, depth int) map[ssa.Value]int64 {
+	out := map[ssa.Value]int64{}
+	var add func(v ssa.Value, k int64, depth int)
+	add = func(v ssa.Value, k int64, depth int) {
+		if c, ok := model.ConstInt(v); ok {
+			out[nil] += k * c
+			return
+		}
+		if depth > 0 {
+			switch x := v.(type) {
+			case *ssa.BinOp:
+				switch x.Op {
+				case token.ADD:
+					add(x.X, k, depth-1)
+					add(x.Y, k, depth-1)
+					return
+				case token.SUB:
+					add(x.X, k, depth-1)
+					add(x.Y, -k, depth-1)
+					return
+				case token.MUL:
+					if c, ok := model.ConstInt(x.Y); ok {
+						add(x.X, k*c, depth-1)
+						return
+					}
+					if c, ok := model.ConstInt(x.X); ok {
+						add(x.Y, k*c, depth-1)
+						return
+					}
+				case token.SHL:
+					if c, ok := model.ConstInt(x.Y); ok && c >= 0 && c < 62 {
+						add(x.X, k<<uint(c), depth-1)
+						return
+					}
+				}
+			case *ssa.UnOp:
+				if x.Op == token.SUB {
+					add(x.X, -k, depth-1)
+					return
+				}
+			}
+		}
+		out[v] += k
+	}
+	add(v, 1, depth)
+	for a, c := range out {
+		if c == 0 {
+			delete(out, a)
+		}
+	}
+	return out
 }
 
 // ---------------------------------------------------------------- FMTSHAPE
@@ -1246,9 +1378,11 @@ func fmtStale(m *model.Model, fn *ssa.Function, setCall *ssa.Call) string {
 			}
 		case *ssa.Call:
 			if cal := x.Call.StaticCallee(); cal != nil && m.IsDecMethod(cal) && len(x.Call.Args) > 0 && x.Call.Args[0] == px {
-				switch cal.Name() {
-				case "MinPrec", "Prec", "MantExp", "BitsExp", "toa":
-					return true
+				// any method that reads the exponent, the mantissa or the precision of its receiver
+				for _, f := range m.LoadSet(cal, 0) {
+					if f == m.F.Exp || f == m.F.Mant || f == m.F.Prec {
+						return true
+					}
 				}
 			}
 		}
